@@ -578,6 +578,27 @@ def gen() -> None:
     full = _gen_readinto_full(cls)
     px.write_if_changed(os.path.join(COQ, "C09", "Gen.v"), text)
     px.write_if_changed(os.path.join(COQ, "C09", "GenRI.v"), full)
+    _check_pins()
+
+
+def _last_def(cls, name):
+    found = [n for n in cls.body if isinstance(n, ast.FunctionDef) and n.name == name]
+    if not found:
+        raise px.Unsupported(f"{cls.name}.{name} not found")
+    return found[-1]          # @t.overload stubs come first
+
+
+def _check_pins() -> None:
+    """statement pins (after Gen.v / GenRI.v were written, so that an edit both changes the generated definitions and is reported):
+    the whole LimitedStream class as the model was written against it, and the request-wrapper glue the end-to-end oracle stands for"""
+    wsgi = px.load("wsgi.py")
+    req = px.find_class(px.load("wrappers/request.py"), "Request")
+    parts = ["## wsgi.LimitedStream\n" + px.skeleton(px.find_class(wsgi, "LimitedStream")),
+             "## wsgi.get_content_length\n" + px.skeleton(px.find_def(wsgi, "get_content_length"))]
+    for name in ("want_form_data_parsed", "_load_form_data", "_get_stream_for_parsing", "stream", "data", "get_data", "get_json"):
+        parts.append(f"## wrappers.Request.{name}\n" + px.skeleton(_last_def(req, name)))
+    px.check_pin("C09", "c09_stream_glue.txt", "\n".join(parts) + "\n",
+                 "wsgi.LimitedStream / the Request body accessors (stream, get_data, data, form loading, get_json)")
 
 
 # ====================================================================== harness
@@ -1147,6 +1168,9 @@ def run(chk: Check) -> None:
         except ImplTimeout:
             r, und = "x:TIMEOUT", None
             fails.append(("hang", "operation sequence did not return within 5 s"))
+        except Exception as e:  # noqa: BLE001  (e.g. a changed constructor signature)
+            r, und = "x:HARNESS:" + type(e).__name__, None
+            fails.append(("interface-changed", f"LimitedStream could not be driven: {type(e).__name__}: {e}"))
         line = ls_line(data, limit, is_max, hasri, sched, ops)
         for key, what in fails[:3]:
             chk.fail(key, what, {"kind": "ls", "line": line, "sched": [str(x) for x in sched]})
@@ -1363,6 +1387,10 @@ def main(chk: Check) -> None:
         "io.RawIOBase.read (read(-1) / read(None) = readall), io.IOBase.readline / readlines / iteration modelled by hand as loops over readinto / read(1) "
         "(CPython _io semantics; validated differentially); io.BufferedReader / io.TextIOWrapper only drive readinto / readall and "
         "are exercised by the harness, not modelled",
+        "statement pins: tools/pins/c09_stream_glue.txt (whole wsgi.LimitedStream, wsgi.get_content_length, Request.want_form_data_parsed / "
+        "_load_form_data / _get_stream_for_parsing / stream / data / get_data / get_json); validated differentially only, no pin wanted: "
+        "formparser.parse_form_data / _parse_urlencoded (pinned and translated by C10: tools/pins/c10_limits_glue.txt), the exception classes "
+        "ClientDisconnected / RequestEntityTooLarge (matched by isinstance), io.BufferedReader / io.TextIOWrapper / io.RawIOBase (CPython, not werkzeug code)",
         "the underlying stream honours the io contract: read(n) / readinto(b) deliver at most n / len(b) bytes; failures are OSError or ValueError",
         "str.strip modelled with the interpreter's 29 white-space code points; re pattern -?\\d+ (re.ASCII) by a hand-written matcher "
         "(pattern text and flags pinned by C09/Gen.v); int() on its matches, below CPython's 4300-digit limit",
